@@ -9,7 +9,7 @@ LEVEL = "exploration"
 RULE = ("generated definition histories over a family of same-named packet classes sharing one cache file (permuted widths with the "
         "same source length, sign/byte-order/option flips, vectorize/annotate/pack-only/unpack-only/generation-off variants, unrelated "
         "shapes, described fields with different descriptor hooks, a module/class pair colliding on the cache file name): a history is "
-        "a sequence of <=4 process segments (each a fresh forked process, bytecode writing on or off, optionally with an equalised "
+        "a sequence of <=4 process segments (each a fresh forked process - or, for one segment in five, a brand-new interpreter started with -O, which uses a different bytecode file - bytecode writing on or off, optionally with an equalised "
         "clock so that same-size sources look unchanged to the bytecode cache), each defining 1-4 variants with repeats; oracle: after "
         "every definition the new class and every class defined earlier in the same process must define successfully and unpack/pack "
         "the vector set exactly as the reference model says for ITS OWN declaration. Non-trivial = a definition that finds a cache "
@@ -29,11 +29,21 @@ def run_history(ctx, hist, V, vmap):
         last_writer = {}      # cache file -> (variant, segment index)
         nontrivial = False
         log = []
-        for si, (bytecode, equal, plan) in enumerate(hist):
-            d = procs.Definer(famdir, plan, vmap, lockstep=False, bytecode=bytecode, equal_clock=equal)
-            d.run_to_end()
-            d.reap()
-            log.append({"bytecode": bytecode, "equal_clock": equal, "plan": plan})
+        for si, seg in enumerate(hist):
+            bytecode, equal, plan = seg[0], seg[1], seg[2]
+            optimize = len(seg) > 3 and seg[3]
+            if optimize:
+                # a brand-new interpreter started with -O: it reads and writes <name>.opt-1.pyc and leaves the plain .pyc alone
+                class D:
+                    pass
+                d = D()
+                d.results, err = procs.run_in_new_interpreter(famdir, plan, vmap, bytecode, equal, True)
+                ctx.count("segments_under_python_O")
+            else:
+                d = procs.Definer(famdir, plan, vmap, lockstep=False, bytecode=bytecode, equal_clock=equal)
+                d.run_to_end()
+                d.reap()
+            log.append({"bytecode": bytecode, "equal_clock": equal, "plan": plan, "optimize": bool(optimize)})
             if len(d.results) != len(plan):
                 ctx.violation({"sig": "definer-died", "desc": "a definer process died: %d of %d definitions reported" % (len(d.results), len(plan)), "history": log})
             for vid in plan:
@@ -60,10 +70,11 @@ def run_shard(shard, ctx):
     V = procs.variant_catalogue()
     vmap = {v["id"]: v for v in V}
     ids = sorted(vmap)
-    seg = st.tuples(st.booleans(), st.booleans(), st.lists(st.sampled_from(ids), min_size=1, max_size=4))
+    opt = st.sampled_from([False, False, False, False, True])
+    seg = st.tuples(st.booleans(), st.booleans(), st.lists(st.sampled_from(ids), min_size=1, max_size=4), opt)
     # bias: histories that stay on the two-integer variants (same cache file, same source length) are the adversarial ones
     core = [i for i in ids if i.startswith("hb") or i.startswith("bh") or i in ("auto", "plain", "collide_a", "collide_b")]
-    seg_core = st.tuples(st.booleans(), st.booleans(), st.lists(st.sampled_from(core), min_size=1, max_size=4))
+    seg_core = st.tuples(st.booleans(), st.booleans(), st.lists(st.sampled_from(core), min_size=1, max_size=4), opt)
     hist = st.lists(st.one_of(seg, seg_core, seg_core), min_size=1, max_size=4)
     run_given(ctx, hist, lambda h: run_history(ctx, h, V, vmap), 150 if ctx.tier == "quick" else 1500)
 
@@ -71,6 +82,6 @@ def run_shard(shard, ctx):
 def replay(case, ctx):
     V = procs.variant_catalogue()
     vmap = {v["id"]: v for v in V}
-    hist = [(s["bytecode"], s["equal_clock"], s["plan"]) for s in case["history"]]
+    hist = [(s["bytecode"], s["equal_clock"], s["plan"], s.get("optimize", False)) for s in case["history"]]
     run_history(ctx, hist, V, vmap)
     ctx.nt("r1"); ctx.nt("r2")
